@@ -770,19 +770,29 @@ def abort_and_blocking(fb, chk, cid, holder, msgs):
             continue
         # continue from the loop head with this path's state of the holder frame
         # (the frame that holds the loop: the holder itself, or a helper it called with the Context borrowed)
-        fr = p.state.frames[-1]
-        lb = fr.body
-        store = {k: v for k, v in p.state.store.items() if not (k[0][0] == 'L' and k[0][1] != fr.fid)}
-        store = {(((('L', 0, k[0][2])), k[1]) if k[0][0] == 'L' else k): v for k, v in store.items()}
-        args = [p.state.store.get((('L', fr.fid, i), ())) for i in range(1, lb.argc + 1)]
-        cont = [q for q in common.mk_engine(fb).run(lb, args=args, start_bb=fr.bb, store=store) if q.kind != 'unreachable']
+        def resume(p_):
+            fr = p_.state.frames[-1]
+            lb = fr.body
+            store = {k: v for k, v in p_.state.store.items() if not (k[0][0] == 'L' and k[0][1] != fr.fid)}
+            store = {(((('L', 0, k[0][2])), k[1]) if k[0][0] == 'L' else k): v for k, v in store.items()}
+            args = [p_.state.store.get((('L', fr.fid, i), ())) for i in range(1, lb.argc + 1)]
+            return [q for q in common.mk_engine(fb).run(lb, args=args, start_bb=fr.bb, store=store) if q.kind != 'unreachable']
+        cont = resume(p)
         ok = bool(cont)
         detail = []
-        for q in cont:
-            later = [ef['callee'].split('::')[-1] for ef in q.effects if ef['kind'] == 'call' and not ef['tracing']]
-            if q.kind != 'return' or later:
-                ok = False
-                detail.append((q.kind, later[:4]))
+        # (nested loops -- a drain loop inside the wait loop: the exit may pass several loop heads, none of them doing anything)
+        rounds = 0
+        while cont and rounds < 4:
+            rounds += 1
+            nxt = []
+            for q in cont:
+                later = [ef['callee'].split('::')[-1] for ef in q.effects if ef['kind'] == 'call' and not ef['tracing']]
+                if q.kind == 'backedge' and not later and rounds < 4 and q.state.frames[-1].bb != p.state.frames[-1].bb:
+                    nxt += resume(q)
+                elif q.kind != 'return' or later:
+                    ok = False
+                    detail.append((q.kind, later[:4]))
+            cont = nxt
         chk.ob('C15.N5', 'abort:leaves-loop:%s' % cid, ok, p.where[2],
                'after ThreadAbort the loop head exits to return with no further call' if ok else
                'after ThreadAbort the worker keeps going: %s' % detail[:3])
